@@ -1,31 +1,33 @@
 (* C20 — I/O failures surface as errors: the serde MapAccess key loops of the two reader
-   deserializers (model BinDeStream: reader = list of operation results, a one-shot fault inserts RIo).
-   Statements only.  The full property (fill_buf, TokenReader operations, positions, persistent
-   faults) belongs to the buffer/reader models; here only the propagate-vs-discard structure of
-   src/text/de.rs:231-246 and src/binary/de.rs:95-114 is pinned. *)
-From JV Require Import Bytes BinDeStream.
+   deserializers (model BinDeStream: reader = list of operation results, a one-shot fault inserts
+   RIo).  Statements only.  Whether each loop propagates the result of the reader operation that
+   follows an Open in key position is regenerated from src/text/de.rs and src/binary/de.rs
+   (Tables.text_key_loop_propagates / bin_key_loop_propagates), so the two instances below are
+   proved *for the code as it is now* by [eq_refl]; they stop compiling if a `?` becomes `let _ =`. *)
+From JV Require Import Bytes Tables BinDeStream.
 From JV.proofs Require Import DeStreamProofs.
+From Coq Require Import List.
+Import ListNotations.
 
-Theorem C20_text_key_loop_fault_sound_partial : forall root l1 l2,
+Theorem C20_text_key_loop_fault_sound : forall root l1 l2,
   text_next_key root (l1 ++ RIo :: l2) = KErrIo \/
   text_next_key root (l1 ++ RIo :: l2) = text_next_key root (l1 ++ l2).
-Proof. exact text_key_fault_sound. Qed.
-Print Assumptions C20_text_key_loop_fault_sound_partial.
+Proof. exact (text_key_fault_sound eq_refl). Qed.
+Print Assumptions C20_text_key_loop_fault_sound.
 
-(* unchanged tree: the binary loop discards the result of the read after a ghost '{' (finding G);
-   the witness  a={ {} b=1 }  with the fault on that read is replayed on the implementation by props/C20.py *)
-Theorem C20_bin_key_loop_fault_refuted : exists root l1 l2,
-  bin_next_key root (l1 ++ RIo :: l2) <> KErrIo /\
-  bin_next_key root (l1 ++ RIo :: l2) <> bin_next_key root (l1 ++ l2).
-Proof. exact bin_key_fault_unsound. Qed.
-Print Assumptions C20_bin_key_loop_fault_refuted.
-
-Theorem C20_bin_key_loop_fault_sound_without_ghost_partial : forall root l1 l2,
-  (forall x, In x l1 -> x <> RTok TOpen) ->
+(* was refuted on the original tree (finding G, `let _ = reader.read()`); holds since the fix *)
+Theorem C20_bin_key_loop_fault_sound : forall root l1 l2,
   bin_next_key root (l1 ++ RIo :: l2) = KErrIo \/
   bin_next_key root (l1 ++ RIo :: l2) = bin_next_key root (l1 ++ l2).
-Proof. exact bin_key_fault_sound_no_ghost. Qed.
-Print Assumptions C20_bin_key_loop_fault_sound_without_ghost_partial.
+Proof. exact (bin_key_fault_sound eq_refl). Qed.
+Print Assumptions C20_bin_key_loop_fault_sound.
+
+(* why the `?` matters: the same loop with the result discarded returns a wrong, non-I/O answer *)
+Theorem C20_discarding_key_loop_refuted : exists root l1 l2,
+  next_key false root (l1 ++ RIo :: l2) <> KErrIo /\
+  next_key false root (l1 ++ RIo :: l2) <> next_key false root (l1 ++ l2).
+Proof. exact discarding_key_loop_unsound. Qed.
+Print Assumptions C20_discarding_key_loop_refuted.
 
 Example C20_nonvacuous : text_next_key false ([RTok TOpen; RTok TClose] ++ RIo :: [RTok (TScalar 1)]) = KErrIo.
 Proof. reflexivity. Qed.
